@@ -400,6 +400,10 @@ def algorithm_source(chunk, variant=None):
                 mod, typ = FIELD_TYPES[ty]
                 if ty == "real" and variant is not None:
                     mod, typ = variant(name, k)
+                elif ty == "real" and [a[0] for a in args] == ["fld", "fld"]:
+                    # copy / conversion built-ins (setval_X, real_to_real_X, real_to_int_X, int_to_real_X):
+                    # written and read real fields get different precisions so that a wrong kind= shows
+                    mod, typ = ("r_tran_field_mod", "r_tran_field_type") if args[k][2] else ("r_solver_field_mod", "r_solver_field_type")
                 uses.setdefault(mod, set()).add(typ)
                 decls.append("  type(%s) :: %s" % (typ, nm))
             else:
@@ -894,20 +898,17 @@ def translate_code(scratch, names=None, settings=SETTINGS, variant=None, log=Non
     """-> (table, instances, psy_texts).  instances: {(name, dm, ann, omp): inst or {'rejected': reason}}.
     The built-ins are distributed over worker processes (PSyclone re-parses lfric_builtins_mod.f90
     for every built-in call of an algorithm file, which dominates the run time)."""
-    import multiprocessing
     table = builtin_table()
     todo = [(i, n, a) for i, (n, _, a) in enumerate(table) if names is None or n in names]
     scratch = Path(scratch)
     scratch.mkdir(parents=True, exist_ok=True)
-    nproc = nproc or max(1, min(6, (os.cpu_count() or 2) // 2))
-    size = max(1, -(-len(todo) // nproc))
+    # sequential chunks in this process: forked worker processes were measured to be several times
+    # SLOWER on the shared machine (system time dominated), and smaller invoke files generate faster
+    nchunks = nproc or 3
+    size = max(1, -(-len(todo) // nchunks))
     jobs = [(todo[i:i + size], str(scratch / ("c20_alg_%d.f90" % (i // size))), list(settings), variant)
             for i in range(0, len(todo), size)]
-    if len(jobs) == 1:
-        results = [_worker(jobs[0])]
-    else:
-        with multiprocessing.get_context("fork").Pool(len(jobs)) as pool:
-            results = pool.map(_worker, jobs)
+    results = [_worker(j) for j in jobs]
     instances, psy_texts = {}, {}
     for status, payload in results:
         if status == "err":
